@@ -394,7 +394,8 @@ func lcExplore(r *kit.Run, prop string, progs []lcProg, bound int) {
 	for _, p := range progs {
 		pn = append(pn, p.String())
 	}
-	r.Extra["programs"] = pn
+	r.Extra["program_list"] = pn
+	r.Extra["programs"] = len(pn)
 	r.Extra["deviation_bound"] = bound
 	{
 		for pi, pr := range progs {
